@@ -38,6 +38,8 @@ type Tokenizer struct {
 	mode      string
 	exkey     bool
 
+	quoteDelim byte // the quote that opened the string being read
+
 	// OnlyOne returns an error if more than one JSON is in the string or stream.
 	OnlyOne bool
 }
@@ -268,6 +270,7 @@ func (t *Tokenizer) tokenizeBuffer(buf []byte, last bool) {
 			}
 			off += i
 		case valQuote:
+			t.quoteDelim = b
 			start := off + 1
 			if len(buf) <= start {
 				t.tmp = t.tmp[:0]
@@ -280,7 +283,7 @@ func (t *Tokenizer) tokenizeBuffer(buf []byte, last bool) {
 				}
 			}
 			off += i
-			if b == '"' {
+			if b == t.quoteDelim {
 				off++
 				t.addString(string(buf[start:off]))
 			} else {
@@ -399,7 +402,11 @@ func (t *Tokenizer) tokenizeBuffer(buf []byte, last bool) {
 			off += i
 		case strQuote:
 			t.hi = 0
-			t.addString(string(t.tmp))
+			if b == t.quoteDelim {
+				t.addString(string(t.tmp))
+			} else {
+				t.tmp = append(t.tmp, b)
+			}
 		case numZero:
 			t.mode = zeroMap
 		case numDigit:
